@@ -566,11 +566,26 @@ func checkC18(p *core.Program, r *core.Report) {
 			}
 		}
 	}
-	// result stored into the cached value
+	// result stored into the cached value — and nothing else is: a value taken from anywhere but this invocation's hash call
+	// (a memo table, a previous value) is not a recomputation from the current children
+	var notHash []string
 	for _, s := range hev.ExtStores() {
 		if f, ok := fieldOf(s.Addr, hev.Params[0]); ok && f == tm.ValField {
-			hashOK = true
+			fromHash := tf.Contains(hev.Resolve(s.Val), func(x *tf.Term) bool {
+				return callNameHasSuffix(x, "go-iden3-crypto/poseidon.Hash")
+			}) || tf.Contains(hev.Deref(hev.Resolve(s.Val)), func(x *tf.Term) bool {
+				return callNameHasSuffix(x, "go-iden3-crypto/poseidon.Hash")
+			})
+			if fromHash {
+				hashOK = true
+			} else {
+				notHash = append(notHash, describe(s.Val))
+			}
 		}
+	}
+	if len(notHash) > 0 {
+		hashOK = false
+		r.Violation("O18.2", core.FuncName(tm.Hash)+": cached value comes only from the hash of the current children", p.Pos(tm.Hash.Pos()), "the node's cached value is also set from %s, which is not the result of hashing the node's current children in this call (a memo table keyed by anything short of the exact pair returns another pair's hash)", strings.Join(notHash, ", "))
 	}
 	okHash := hashOK && first != "" && second != "" && first != second
 	r.Check(okHash, "O18.2", core.FuncName(tm.Hash)+": caches Hash(value(child1), value(child2))", p.Pos(tm.Hash.Pos()), fmt.Sprintf("val = Hash(value(%s), value(%s))", first, second), fmt.Sprintf("the hash method does not cache Hash of its two children's values (operands %q, %q; stored=%v)", first, second, hashOK))
